@@ -19,5 +19,8 @@ pub fn run(op: &str, args: &[&str]) -> Option<String> {
     if let Some(r) = crate::ops_io::run_untyped(op, args) {
         return Some(r);
     }
+    if let Some(r) = crate::ops_canon::run_untyped(op, args) {
+        return Some(r);
+    }
     None
 }
